@@ -1,9 +1,9 @@
 ------------------------------ MODULE MC_Table ------------------------------
-(* Bounded instances of Table and behaviour emission.                                    *)
+(* Bounded instances of Table and behaviour emission.  MCNext is a restriction of         *)
+(* Table!Next built from the same actions (every MCNext step is a Next step; the base    *)
+(* specification stays unrestricted).  Two ways of cutting the space, chosen by Mode:    *)
 (*                                                                                       *)
-(* The histories are canonicalised by MCNext, a restriction of Table!Next built from the *)
-(* same actions (every MCNext step is a Next step; the base specification stays          *)
-(* unrestricted):                                                                        *)
+(* Mode = "grid": many names and lengths, one render block at the end.                   *)
 (*   - series are created in the order of PoolOrder, which is deliberately neither the   *)
 (*     code-point order nor the priority order (so the insertion order of the real dict  *)
 (*     differs from every order the header could legitimately have);                     *)
@@ -15,9 +15,17 @@
 (*     explored with one value per series, which is also the state Solve starts from;    *)
 (*   - Solve only on "num" series created without extension; the renders of a history    *)
 (*     are the applicable format classes in the order of FormatSeq.                      *)
+(*                                                                                       *)
+(* Mode = "edit": few names, every interleaving.  All histories of at most MaxMut        *)
+(* mutations (Put by AppendValue, Store by item assignment - creating or replacing, by a *)
+(* longer or a shorter list -, Delete, Solve) and exactly MaxObs observations (List =    *)
+(* GetSeriesList(), Render), in any order, the last observation being a Render; names in *)
+(* any order; one kind per history; the format class of the j-th render is fixed         *)
+(* (FormatSeq cyclically, "d" replaced when a series is not int-only) so that formats do *)
+(* not multiply the histories.                                                           *)
 EXTENDS Table, Json
 
-CONSTANTS MaxRagged, MaxRaggedInt, MaxExtends, PoolOrder
+CONSTANTS Mode, MaxRagged, MaxRaggedInt, MaxExtends, PoolOrder, MaxMut, MaxObs
 
 N_A    == << 65 >>
 N_a    == << 97 >>
@@ -36,14 +44,28 @@ MC_Pool9b == << NmT, N_Z1, IterationAbsChange, N_a, Iteration, N_A, IterationErr
 MC_Pool12 == << NmT, N_Z1, N_a, IterationAbsChange, Iteration, N_A, N_ux, NmK, N_B, N_Z, IterationError, N_T >>
 MC_Pool12b == << N_K, N_T, IterationError, N_B, NmK, N_ux, N_A, Iteration, N_ab, N_a, N_Z1, NmT >>
 
+(* edit pools: a priority name, names sorting before / after each other, two cases *)
+MC_Edit3 == << N_B, NmK, N_a >>
+MC_Edit4 == << N_B, NmK, N_a, N_A >>
+
 MC_Names == Range(PoolOrder)
 MC_Formats == << "g5", "g12", "f", "e", "d" >>
+MC_EditFormats == << "g12", "d", "f", "g5", "e" >>
+MC_Horizon1 == {1}
 MC_Horizons_quick == {0, 2}
 MC_Horizons_thorough == {0, 1, 3}
 
 PoolIdx(n) == CHOOSE i \in 1..Len(PoolOrder) : PoolOrder[i] = n
+
+OpsOf(S) == SelectSeq(hist, LAMBDA o : o.op \in S)
+puts == OpsOf({"put"})
+NumRenders == Len(OpsOf({"render"}))
+NumObs == Len(OpsOf(ObsOps))
+NumMut == Len(OpsOf(MutOps))
 NumExtends(ps) == Len(ps) - Cardinality({ ps[i].name : i \in 1..Len(ps) })
 
+----------------------------------------------------------------------------
+(* Mode = "grid" *)
 RequiredRenders == SelectSeq(FormatSeq, LAMBDA f : f \notin IntOnlyFormats \/ AllInt(holder))
 
 LastPut == puts[Len(puts)]
@@ -56,20 +78,43 @@ PutLens(n, kind) ==
     IF Cardinality(DOMAIN holder \cup {n}) <= (IF kind = "int" THEN MaxRaggedInt ELSE MaxRagged) THEN 0..MaxLen
     ELSE IF \A m \in DOMAIN holder : holder[m].len = 1 THEN {1} ELSE {}
 
-MCNext ==
-    \/ /\ phase = "build"
+GridNext ==
+    \/ /\ phase = "build" /\ NumRenders = 0
        /\ \E n \in PutNames : \E kind \in PutKinds : \E len \in PutLens(n, kind) : Put(n, len, kind)
-    \/ /\ phase = "build"
+    \/ /\ phase = "build" /\ NumRenders = 0
        /\ \A n \in DOMAIN holder : holder[n].kind = "num"
        /\ NumExtends(puts) = 0
        /\ \E h \in Horizons : Solve({}, h)
-    \/ /\ Len(renders) < Len(RequiredRenders)
-       /\ Render(RequiredRenders[Len(renders) + 1])
+    \/ /\ NumRenders < Len(RequiredRenders)
+       /\ Render(RequiredRenders[NumRenders + 1])
 
+GridTerminal == NumRenders > 0 /\ NumRenders = Len(RequiredRenders)
+
+----------------------------------------------------------------------------
+(* Mode = "edit" *)
+Stores == OpsOf({"put", "store"})
+HistKinds == IF Stores = << >> THEN Kinds ELSE {Stores[1].kind}
+RenderFmt(j) ==
+    LET f == FormatSeq[((j - 1) % Len(FormatSeq)) + 1]
+    IN IF f \in IntOnlyFormats /\ ~AllInt(holder) THEN FormatSeq[1] ELSE f
+
+EditNext ==
+    \/ /\ NumMut < MaxMut /\ NumObs < MaxObs            \* a mutation nobody looks at afterwards is not explored
+       /\ \/ \E n \in Names : \E kind \in HistKinds : \E len \in 0..MaxLen :
+                Put(n, len, kind) \/ Store(n, len, kind)
+          \/ \E n \in DOMAIN holder : Delete(n)
+          \/ /\ \A n \in DOMAIN holder : holder[n].kind = "num"
+             /\ \E h \in Horizons : Solve({}, h)
+    \/ /\ NumObs < MaxObs - 1 /\ List                   \* the last observation is a Render
+    \/ /\ NumObs < MaxObs /\ Render(RenderFmt(NumRenders + 1))
+
+EditTerminal == NumObs = MaxObs
+
+----------------------------------------------------------------------------
+MCNext == IF Mode = "grid" THEN GridNext ELSE EditNext
 MCSpec == Init /\ [][MCNext]_vars
 
 (* every maximal behaviour is printed once, as JSON, for the replay driver *)
-Terminal == phase = "render" /\ renders = RequiredRenders
-Emit == Terminal =>
-          PrintT(<< "BEH", ToJson([puts |-> puts, solve |-> solved, renders |-> renders]) >>)
+Terminal == IF Mode = "grid" THEN GridTerminal ELSE EditTerminal
+Emit == Terminal => PrintT(<< "BEH", ToJson([hist |-> hist]) >>)
 =============================================================================
